@@ -253,6 +253,7 @@ theorem addVariable_cases (cfg : Cfg) (s : Store) (name : Name) (v : Operand) (d
     (∃ e, addVariable cfg s name v dtype = (s, .raised e)) ∨
     (∃ a, a.rank1 ∧ firstDim a = s.n ∧ ¬ s.index.contains name = true ∧
       ¬ (cfg.addVarChecksAttrs && s.attrs.contains name) = true ∧
+      ¬ (cfg.addVarChecksKeys && s.dictKeys.contains ("_" ++ name)) = true ∧
       addVariable cfg s name v dtype = ({ s with vars := s.vars ++ [(name, a)] }, .ok)) := by
   unfold addVariable
   by_cases hc : s.index.contains name = true
@@ -275,18 +276,18 @@ theorem addVariable_cases (cfg : Cfg) (s : Store) (name : Name) (v : Operand) (d
             by_cases hd : firstDim a' ≠ s.n
             · left; exact ⟨.dimension, by rw [if_pos hd]⟩
             · right
-              refine ⟨a', astype_rank1 (newArray_rank1 hn) ht, by simpa using hd, hc, hat, ?_⟩
+              refine ⟨a', astype_rank1 (newArray_rank1 hn) ht, by simpa using hd, hc, hat, hk, ?_⟩
               rw [if_neg hd]
 
 theorem addVariable_ext (s : Store) (name : Name) (v : Operand) (dtype : Option Kind) :
     Ext s (addVariable cfg s name v dtype).1 := by
-  rcases addVariable_cases cfg s name v dtype with ⟨e, h⟩ | ⟨a, _, _, _, _, h⟩
+  rcases addVariable_cases cfg s name v dtype with ⟨e, h⟩ | ⟨a, _, _, _, _, _, h⟩
   · rw [h]; exact Ext.refl s
   · rw [h]; exact Ext.addVar s name a
 
 theorem addVariable_inv {s : Store} (hi : Inv s) (name : Name) (v : Operand) (dtype : Option Kind) :
     Inv (addVariable cfg s name v dtype).1 := by
-  rcases addVariable_cases cfg s name v dtype with ⟨e, h⟩ | ⟨a, hr, hd, _, _, h⟩
+  rcases addVariable_cases cfg s name v dtype with ⟨e, h⟩ | ⟨a, hr, hd, _, _, _, h⟩
   · rw [h]; exact hi
   · rw [h]
     intro p hp
@@ -302,7 +303,7 @@ theorem addVariable_inv {s : Store} (hi : Inv s) (name : Name) (v : Operand) (dt
 
 theorem addVariable_failed {s : Store} {name : Name} {v : Operand} {dtype : Option Kind} {e : Exc}
     (h : (addVariable cfg s name v dtype).2 = .raised e) : (addVariable cfg s name v dtype).1 = s := by
-  rcases addVariable_cases cfg s name v dtype with ⟨e', h'⟩ | ⟨a, _, _, _, _, h'⟩
+  rcases addVariable_cases cfg s name v dtype with ⟨e', h'⟩ | ⟨a, _, _, _, _, _, h'⟩
   · rw [h']
   · rw [h'] at h; cases h
 
@@ -368,6 +369,31 @@ theorem setItem_attrs (s : Store) (name : Name) (v : Operand) :
   | none => exact ⟨rfl, rfl⟩
   | some ser => exact assignWhole_attrs _ _ _ _
 
+/-- `add_attribute`: either nothing happens (DuplicateNameError) or the name is appended to the attribute list —
+    and then it was neither a variable, nor an attribute, nor (with the key check) any key of the instance dict. -/
+theorem addAttribute_cases (cfg : Cfg) (s : Store) (name : Name) :
+    addAttribute cfg s name = (s, .raised .duplicateName) ∨
+    (addAttribute cfg s name = ({ s with attrs := s.attrs ++ [name] }, .ok) ∧ ¬ s.index.contains name = true ∧
+      ¬ s.attrs.contains name = true ∧ ¬ (cfg.addAttrChecksKeys && s.dictKeys.contains name) = true) := by
+  unfold addAttribute
+  by_cases h1 : s.index.contains name = true
+  · left; rw [if_pos h1]
+  · rw [if_neg h1]
+    by_cases h2 : s.attrs.contains name = true
+    · left; rw [if_pos h2]
+    · rw [if_neg h2]
+      by_cases h3 : (cfg.addAttrChecksKeys && s.dictKeys.contains name) = true
+      · left; rw [if_pos h3]
+      · right; rw [if_neg h3]; exact ⟨rfl, h1, h2, h3⟩
+
+theorem addAttribute_all (s : Store) (name : Name) :
+    Ext s (addAttribute cfg s name).1 ∧ (Inv s → Inv (addAttribute cfg s name).1) ∧
+    (∀ e, (addAttribute cfg s name).2 = .raised e → (addAttribute cfg s name).1 = s) ∧
+    (addAttribute cfg s name).1.strict = s.strict ∧ (addAttribute cfg s name).1.index = s.index := by
+  rcases addAttribute_cases cfg s name with h | ⟨h, _⟩
+  · rw [h]; exact ⟨Ext.refl s, id, fun _ _ => rfl, rfl, rfl⟩
+  · rw [h]; exact ⟨Ext.attrs s _ _, id, fun e he => by simp at he, rfl, rfl⟩
+
 theorem setAttr_ext (s : Store) (name : Name) (v : Operand) (alts : List Name) :
     Ext s (setAttr cfg s name v alts).1 := by
   unfold setAttr
@@ -382,7 +408,7 @@ theorem setAttr_ext (s : Store) (name : Name) (v : Operand) (alts : List Name) :
       · simp only [h1]
         by_cases h2 : s.attrs.contains name = true
         · simp only [h2, if_true]; exact Ext.refl s
-        · simp only [h2]; exact Ext.attrs s _ _
+        · simp only [h2]; exact (addAttribute_all s name).1
     | some ser => exact assignWhole_ext hg v
 
 theorem setAttr_inv {s : Store} (h : Inv s) {name : Name} {v : Operand} (alts : List Name)
@@ -399,7 +425,7 @@ theorem setAttr_inv {s : Store} (h : Inv s) {name : Name} {v : Operand} (alts : 
       · simp only [h1]
         by_cases h2 : s.attrs.contains name = true
         · simp only [h2, if_true]; exact h
-        · simp only [h2]; exact h
+        · simp only [h2]; exact (addAttribute_all s name).2.1 h
     | some ser =>
       rcases hflat with hf | hf | hf
       · exact assignWhole_inv h hg (Or.inl hf)
@@ -418,10 +444,10 @@ theorem setAttr_failed {s : Store} {name : Name} {v : Operand} {alts : List Name
       simp only [hg] at h
       by_cases h1 : (name == "strict") = true
       · simp only [h1, if_true] at h; cases h
-      · simp only [h1] at h
+      · simp only [h1] at h ⊢
         by_cases h2 : s.attrs.contains name = true
         · simp only [h2, if_true] at h; cases h
-        · simp only [h2] at h; cases h
+        · simp only [h2] at h ⊢; exact (addAttribute_all s name).2.2.1 e h
     | some ser => simp only [hg] at h ⊢; exact assignWhole_failed hg h he
 
 theorem setPos_ext (s : Store) (name : Name) (i : Int) (v : Operand) : Ext s (setPos s name i v).1 := by
